@@ -386,19 +386,28 @@ namespace fixedmath
   /// \brief Returns the product of two fixed_t point values.
   namespace detail
     {
-    constexpr bool check_multiply_result( fixed_t result )
-      { 
-      return (result < as_fixed( fixed_internal(0x7fffffffffff0000ll) )
-        || result > as_fixed( fixed_internal(-0x7fffffffffff0000ll)) );
+    ///\returns true when lh * rh is not representable in fixed_internal, otherwise the product is stored in \param result
+    constexpr bool multiply_overflow( fixed_internal lh, fixed_internal rh, fixed_internal & result ) noexcept
+      {
+#if defined(__GNUC__) || defined(__clang__)
+      return __builtin_mul_overflow( lh, rh, &result );
+#else
+      using limits = std::numeric_limits<fixed_internal>;
+      if( lh > 0 ? ( rh > 0 ? lh > limits::max() / rh : rh < limits::min() / lh )
+                 : ( rh > 0 ? lh < limits::min() / rh : ( lh != 0 && rh < limits::max() / lh ) ) )
+        return true;
+      result = lh * rh;
+      return false;
+#endif
       }
     
     [[ gnu::const, gnu::always_inline ]]
     constexpr fixed_t fixed_multiplyi (fixed_t lh, fixed_t rh) noexcept
       {
-      fixed_t result { fix_carrier_t{ lh.v * rh.v }};
+      fixed_internal result {};
 
-      if( fixed_likely( check_multiply_result(result)) )
-        return fix_carrier_t{ result.v >> 16 };
+      if( fixed_likely( !multiply_overflow(lh.v, rh.v, result)) )
+        return fix_carrier_t{ result >> 16 };
       
       return quiet_NaN_result();
       }
@@ -428,10 +437,15 @@ namespace fixedmath
     [[ gnu::const, gnu::always_inline ]]
     constexpr fixed_t fixed_multiply_scalar (fixed_t lh, integral_type rh) noexcept
       {
-      fixed_t result { fix_carrier_t{ lh.v * promote_type_to_signed(rh) }};
+      //unsigned 64 bit values above the signed range can not be promoted, only zero times such scalar is representable
+      if constexpr( is_unsigned_v<integral_type> && sizeof(integral_type) == sizeof(fixed_internal) )
+        if( fixed_unlikely( rh > static_cast<integral_type>(std::numeric_limits<fixed_internal>::max()) ) )
+          return lh.v == 0 ? lh : quiet_NaN_result();
 
-      if( fixed_likely( check_multiply_result(result)) )
-        return result;
+      fixed_internal result {};
+      if( fixed_likely( !multiply_overflow(lh.v, fixed_internal{promote_type_to_signed(rh)}, result)
+                        && result != std::numeric_limits<fixed_internal>::min() ) )
+        return as_fixed(result);
       return quiet_NaN_result();
       }
     template<typename integral_type,
